@@ -478,9 +478,16 @@ func (P *Prog) checkNotTypestate(r *Result) {
 				if s, isS := constString(bo.X); isS && s == "not_" && cv(bo.Y) == ssa.Value(fn.Params[0]) {
 					// on the path where the code does not already have the prefix
 					for _, gd := range guardsOf(b) {
-						if c, ok := gd.If.Cond.(*ssa.Call); ok {
-							if ci := callOf(c); ci.static != nil && ci.static.String() == "strings.HasPrefix" && !gd.True {
-								okPref = true
+						// `strings.HasPrefix(code, "not_")` or the found result of `strings.CutPrefix(code, "not_")`, false
+						cond := cv(gd.If.Cond)
+						if ex, ok := cond.(*ssa.Extract); ok && ex.Index == 1 {
+							cond = ex.Tuple
+						}
+						if c, ok := cond.(*ssa.Call); ok && !gd.True {
+							if ci := callOf(c); ci.static != nil && (ci.static.String() == "strings.HasPrefix" || ci.static.String() == "strings.CutPrefix") && len(c.Call.Args) == 2 {
+								if pfx, isS := constString(cv(c.Call.Args[1])); isS && pfx == "not_" && cv(c.Call.Args[0]) == ssa.Value(fn.Params[0]) {
+									okPref = true
+								}
 							}
 						}
 					}
